@@ -610,7 +610,7 @@ type c10decJob struct {
 
 func (env *c10env) decodeJobs(e *cenv) []c10decJob {
 	r := e.r
-	perKind := 3
+	perKind := 5
 	maxFile := int64(64 << 10)
 	nGen := 40
 	if r.Thorough() {
@@ -822,9 +822,9 @@ func (env *c10env) runDecodes(e *cenv) {
 
 func c10pureLeg(e *cenv) {
 	r := e.r
-	n := 1500
+	n := 1000
 	if r.Thorough() {
-		n = 40000
+		n = 30000
 	}
 	jobs, err := histJobs(r, "c10", n, r.Scratch+"/c10h")
 	if err != nil {
@@ -951,15 +951,21 @@ func runC10(r *drv.Run) drv.Spec {
 		drv.Fatal("implausible control object: tls=%v nonrelro=%d", ctl.tls, ctl.nonrelro)
 	}
 
+	drv.Logf("C10: builds ready at %.1fs", time.Since(r.Start).Seconds())
 	var pureWg sync.WaitGroup
 	pureWg.Add(1)
 	go func() {
 		defer pureWg.Done()
+		t0 := time.Now()
 		c10pureLeg(e)
+		drv.Logf("C10: pure-call leg (wdrive) took %.1fs", time.Since(t0).Seconds())
 	}()
+	t0 := time.Now()
 	env.inspectAndJudge(e, env.pkgs, map[string]bool{"base": true})
-	// Only objects that load can be decoded with.
+	drv.Logf("C10: inspect leg took %.1fs", time.Since(t0).Seconds())
+	t0 = time.Now()
 	env.runDecodes(e)
+	drv.Logf("C10: seccomp decode leg took %.1fs", time.Since(t0).Seconds())
 	c10generated(e, env)
 	pureWg.Wait()
 	r.Extra["packages"] = len(env.pkgs)
